@@ -370,8 +370,8 @@ def gen_matrix_instance(rng, k=None, nvars=None, nreads=None, deep=False):
         q = rng.randrange(nvars - 1)
         absent = nall[q]
         genos[q] = sorted([absent] * (k - 1) + [absent + 1])
-        for _ in range(rng.choice([260, 320])):
-            h = rng.randrange(k)
+        for n in range(k * rng.choice([270, 300])):
+            h = n % k
             reads.append([(positions[q], cols[q][h]), (positions[q + 1], cols[q + 1][h])])
     return dict(k=k, positions=positions, cols=cols, genos=genos, reads=reads,
                 sens=rng.randrange(6), prephase=None)
@@ -599,7 +599,7 @@ def gen_stub_result(rng, inst):
 
 def write_instance_vcf(inst, path, extra_hom=True):
     """VCF text for the instance (sample S): the heterozygous variants plus, between them, homozygous and
-    uncovered records, so that the writer has something to skip. Returns list of (pos0, in_gt list)."""
+    uncovered records, so that the writer has something to skip. Returns list of (pos0, in_gt list, in_ps)."""
     k = inst["k"]
     lines = ["##fileformat=VCFv4.2", "##contig=<ID=chrA,length=100000>",
              '##FORMAT=<ID=GT,Number=1,Type=String,Description="Genotype">',
@@ -631,7 +631,7 @@ def write_instance_vcf(inst, path, extra_hom=True):
             na = 1
             call = "/".join(map(str, g)) + ":."
         lines.append(f"chrA\t{p + 1}\t.\tA\t{','.join(alts[:na])}\t.\tPASS\t.\tGT:PS\t{call}")
-        recs.append((p, list(g)))
+        recs.append((p, list(g), pmap[p][0] if (p in gmap and pmap.get(p)) else None))
     with open(path, "w") as f:
         f.write("\n".join(lines) + "\n")
     return recs
